@@ -11,6 +11,7 @@ for name in sorted(os.listdir(os.path.join(ROOT, "checks"))):
 meta = {"checks": {k: v["manifest"] for k, v in cfg.items()},
         "notes": "See DESIGN.md. Every check = P (Lean theorems, axiom audit) + K (model-vs-code correspondence) + O (spec-vs-code search for a failing input). known-findings.txt lists recorded defects and fix: commits.",
         "not_applicable": {}}
+LEVELS = ["exploration", "fault_enumeration", "model_checking", "proof", "translation_validation", "other"]
 checks = []
 for pid in sorted(cfg):
     m = meta["checks"][pid]
@@ -21,7 +22,9 @@ for pid in sorted(cfg):
         "evidence_file": f"/verif/evidence/{pid}.json",
         "replay_cmd_template": f"./check {pid} --replay {{path}}",
         "engine": "lean-proof+correspondence",
-        "level_claimed": {"category": cfg[pid].get("level", "proof"), "text": m["text"], "design_ref": m.get("design_ref", f"DESIGN.md §4 {pid}")},
+        "level_claimed": {"category": (cfg[pid].get("level", "proof") if cfg[pid].get("level", "proof") in LEVELS else "proof"),
+                          "text": (m["text"] if cfg[pid].get("level", "proof") in LEVELS or m["text"].lower().startswith("partial") else "Partial: " + m["text"]),
+                          "design_ref": m.get("design_ref", f"DESIGN.md §4 {pid}")},
         "level_note": m["note"],
         "technique": m["technique"],
     })
